@@ -68,9 +68,17 @@ type Conn struct {
 	remote   simAddr
 	closedMe bool
 	writes   int
+	// ReadLog records, per successful Read, the time and the total bytes consumed so far, so
+	// that oracles can tell when the node finished reading a given message.
+	ReadLog []ReadMark
 	// OnRead is called (holding the baton) whenever a Read returns data, with the total number
 	// of bytes consumed so far on this endpoint.
 	Name string
+}
+
+type ReadMark struct {
+	At  time.Duration
+	Off uint64
 }
 
 // NewConnPair creates a connected pair (a = dialer side, b = listener side).
@@ -106,6 +114,7 @@ func (c *Conn) Read(p []byte) (int, error) {
 				c.in.q = c.in.q[1:]
 			}
 			c.in.consumed += uint64(n)
+			c.ReadLog = append(c.ReadLog, ReadMark{At: now, Off: c.in.consumed})
 			return n, nil
 		}
 		if len(c.in.q) == 0 && c.in.closed {
